@@ -38,9 +38,14 @@ pub struct RunCtx {
 
 impl RunCtx {
     pub fn n(&self, quick: usize, thorough: usize) -> usize {
-        match self.tier {
+        let n = match self.tier {
             Tier::Quick => quick,
             Tier::Thorough => thorough,
+        };
+        // VERIF_CASE_SCALE (e.g. 0.2) shrinks the number of random cases; used for the second, unoptimised pass of C16
+        match std::env::var("VERIF_CASE_SCALE").ok().and_then(|s| s.parse::<f64>().ok()) {
+            Some(f) if f > 0.0 => ((n as f64 * f).ceil() as usize).max(1),
+            _ => n,
         }
     }
 
